@@ -363,7 +363,7 @@ pub fn random_vpl_text(rng: &mut Rng) -> String {
 fn run_case(cx: &CaseCtx, rep: &mut Report) {
 	let mut rng = cx.rng();
 	cx.progress("valid texts");
-	let trees = cx.tier.pick(160, 300);
+	let trees = if cx.tier.is_tiny() { 6 } else { cx.tier.pick(160, 300) };
 	for _ in 0..trees {
 		let depth = rng.below(4) as u32;
 		let tree = gen_pipeline(&mut rng, depth);
